@@ -269,6 +269,9 @@ def _worker(args) -> Tuple[str, Any]:
         ensure_repo_on_path()
         _quiet_logging()
         mod = importlib.import_module(modname)
+        from .logmode import install as _install_logmode
+
+        _install_logmode(mod)
         col = Collector()
         t0 = time.time()
         mod.JOBS[jobname](col, seed=seed, tier=tier, **kwargs)
@@ -348,6 +351,9 @@ def run_property(pid: str, tier: str, seed: int, replay: Optional[str] = None) -
             pass
     modname = f"vpbt.props.{pid.lower()}"
     mod = importlib.import_module(modname)
+    from .logmode import install as _install_logmode
+
+    _install_logmode(mod)
 
     if replay:
         return _replay_file(mod, pid, replay)
